@@ -148,9 +148,9 @@ macro "same_heap" hi:ident : tactic => `(tactic| (
   | exact fun x hx => (Glob.mem (Inv.glob $hi) x hx).2
   | exact fun u _ h0 => (Inv.own $hi u h0).1))
 
-theorem step_inv_inv {s s' : St} (hi : Inv s) (t : Nat) (push d : Bool) (v : Nat)
-    (h : step s (.inv t push d v) = some s') : Inv s' := by
-  simp only [step] at h
+theorem step_inv_inv {fx : Bool} {s s' : St} (hi : Inv s) (t : Nat) (push d : Bool) (v : Nat)
+    (h : stepG fx s (.inv t push d v) = some s') : Inv s' := by
+  simp only [stepG] at h
   split at h
   case isFalse => simp at h
   simp only [Option.some.injEq] at h; subst h
@@ -158,9 +158,9 @@ theorem step_inv_inv {s s' : St} (hi : Inv s) (t : Nat) (push d : Bool) (v : Nat
     (by cases push <;> simp [Loc]) (by cases push <;> simp [heldTag])
     (by cases push <;> simp [owned]) (by cases push <;> simp [owned])
 
-theorem step_inv_ret {s s' : St} (hi : Inv s) (t : Nat) (ok : Bool) (v : Nat)
-    (h : step s (.ret t ok v) = some s') : Inv s' := by
-  simp only [step] at h
+theorem step_inv_ret {fx : Bool} {s s' : St} (hi : Inv s) (t : Nat) (ok : Bool) (v : Nat)
+    (h : stepG fx s (.ret t ok v) = some s') : Inv s' := by
+  simp only [stepG] at h
   split at h
   case isFalse => simp at h
   split at h
@@ -171,18 +171,18 @@ theorem step_inv_ret {s s' : St} (hi : Inv s) (t : Nat) (ok : Bool) (v : Nat)
   exact inv_upd hi t _ s.nodes s.used (by same_heap hi) (by same_heap hi) (by same_heap hi) (by same_heap hi)
     (by simp [Loc]) (by simp [heldTag]) (by simp [owned]) (by simp [owned])
 
-theorem step_inv_done {s s' : St} (hi : Inv s) (t : Nat)
-    (h : step s (.done t) = some s') : Inv s' := by
-  simp only [step] at h
+theorem step_inv_done {fx : Bool} {s s' : St} (hi : Inv s) (t : Nat)
+    (h : stepG fx s (.done t) = some s') : Inv s' := by
+  simp only [stepG] at h
   split at h
   case isFalse => simp at h
   simp only [Option.some.injEq] at h; subst h
   exact inv_upd hi t _ s.nodes s.used (by same_heap hi) (by same_heap hi) (by same_heap hi) (by same_heap hi)
     (by simp [Loc]) (by simp [heldTag]) (by simp [owned]) (by simp [owned])
 
-theorem step_inv_free {s s' : St} (hi : Inv s) (t n : Nat)
-    (h : step s (.free t n) = some s') : Inv s' := by
-  simp only [step] at h
+theorem step_inv_free {fx : Bool} {s s' : St} (hi : Inv s) (t n : Nat)
+    (h : stepG fx s (.free t n) = some s') : Inv s' := by
+  simp only [stepG] at h
   split at h
   case isFalse => simp at h
   split at h
@@ -204,9 +204,9 @@ theorem step_inv_free {s s' : St} (hi : Inv s) (t n : Nat)
     have := this hl
     simp [upd]; exact ⟨Ne.symm this, (hi.own u h0).1⟩
 
-theorem step_inv_alloc {s s' : St} (hi : Inv s) (t n : Nat)
-    (h : step s (.alloc t n) = some s') : Inv s' := by
-  simp only [step] at h
+theorem step_inv_alloc {fx : Bool} {s s' : St} (hi : Inv s) (t n : Nat)
+    (h : stepG fx s (.alloc t n) = some s') : Inv s' := by
+  simp only [stepG] at h
   split at h
   case isFalse => simp at h
   rename_i hg
@@ -238,9 +238,9 @@ theorem keep_owned {s : St} (hi : Inv s) (t : Nat) {p' : Pc} (h : owned p' = own
   rw [h]
   exact ⟨hi.own t, fun u hu h0 => hi.excl t u (Ne.symm hu) h0⟩
 
-theorem step_inv_ld {s s' : St} (hi : Inv s) (t : Nat) (a : Anchor)
-    (h : step s (.ld t a) = some s') : Inv s' := by
-  simp only [step] at h
+theorem step_inv_ld {fx : Bool} {s s' : St} (hi : Inv s) (t : Nat) (a : Anchor)
+    (h : stepG fx s (.ld t a) = some s') : Inv s' := by
+  simp only [stepG] at h
   split at h
   case isFalse => simp at h
   rename_i hg
@@ -284,9 +284,9 @@ theorem step_inv_ld {s s' : St} (hi : Inv s) (t : Nat) (a : Anchor)
             (by simp only [Loc, KOk, stabSide]; exact ⟨trivial, hi.glob.st_cases h2⟩) (by simp [heldTag])
             (hk _ rfl).1 (hk _ rfl).2
 
-theorem step_inv_chk {s s' : St} (hi : Inv s) (t : Nat) (same : Bool)
-    (h : step s (.chk t same) = some s') : Inv s' := by
-  simp only [step] at h
+theorem step_inv_chk {fx : Bool} {s s' : St} (hi : Inv s) (t : Nat) (same : Bool)
+    (h : stepG fx s (.chk t same) = some s') : Inv s' := by
+  simp only [stepG] at h
   split at h
   case isFalse => simp at h
   have hl := hi.loc t
@@ -328,19 +328,19 @@ theorem step_inv_chk {s s' : St} (hi : Inv s) (t : Nat) (same : Bool)
         (by simpa [Loc] using hl) (by simpa [heldTag] using ht) (hk _ rfl).1 (hk _ rfl).2
 
 /-- a load of the inward link of the current end node names its chain neighbour -/
-theorem rd_inward {s : St} (hi : Inv s) (d : Bool) (lk : Link)
+theorem rd_inward {s : St} (hi : Inv s) (d : Bool) (lk : Link) {X : Prop}
     (hs : s.anchor.st = 0 ∨ s.anchor.st = pushSt d) (hne : s.anchor.l ≠ s.anchor.r)
-    (hg : unknownLeft s d (s.anchor.endp d) = true ∨ lk = inward d (s.nodes (s.anchor.endp d))) :
+    (hg : (unknownLeft s d (s.anchor.endp d) = true ∧ X) ∨ lk = inward d (s.nodes (s.anchor.endp d))) :
     Nbr d s.chain (s.anchor.endp d) lk.ptr := by
   have hm := hi.glob.end_mem d (hi.glob.end_ne_zero d hne)
   have hu := (hi.glob.mem _ hm).2
-  rcases hg with hg | hg
+  rcases hg with ⟨hg, _⟩ | hg
   · simp [unknownLeft, hu] at hg
   · rw [hg]; exact hi.glob.nbr_inward d hne hs
 
-theorem step_inv_rd {s s' : St} (hi : Inv s) (t : Nat) (lk : Link)
-    (h : step s (.rd t lk) = some s') : Inv s' := by
-  simp only [step] at h
+theorem step_inv_rd {fx : Bool} {s s' : St} (hi : Inv s) (t : Nat) (lk : Link)
+    (h : stepG fx s (.rd t lk) = some s') : Inv s' := by
+  simp only [stepG] at h
   split at h
   case isFalse => simp at h
   have hl := hi.loc t
@@ -393,13 +393,13 @@ theorem step_inv_rd {s s' : St} (hi : Inv s) (t : Nat) (lk : Link)
       have hpp := nbr_unique hi.glob.nodup hp hnb
       subst hpp
       have hu := (hi.glob.mem _ (nbr_mem hnb).2).2
-      rcases hg.2 with hg2 | hg2
+      rcases hg.2 with ⟨hg2, _⟩ | hg2
       · simp [unknownLeft, hu] at hg2
       · rw [← hg2]; simpa using hptr
 
-theorem step_inv_link {s s' : St} (hi : Inv s) (t n tgt : Nat)
-    (h : step s (.link t n tgt) = some s') : Inv s' := by
-  simp only [step] at h
+theorem step_inv_link {fx : Bool} {s s' : St} (hi : Inv s) (t n tgt : Nat)
+    (h : stepG fx s (.link t n tgt) = some s') : Inv s' := by
+  simp only [stepG] at h
   split at h
   case isFalse => simp at h
   split at h
@@ -446,9 +446,9 @@ theorem loc_lcas {A : Anchor} {C : List Nat} {N : Nat → Node} {p : Pc} {d : Bo
     · subst hpP; simp [upd]
     · simp only [upd, hpP, if_false]; exact h.2.2 rfl p hp
 
-theorem step_inv_lcas {s s' : St} (hi : Inv s) (t : Nat) (ok : Bool)
-    (h : step s (.lcas t ok) = some s') (hs : s'.stale = false) : Inv s' := by
-  simp only [step] at h
+theorem step_inv_lcas {fx : Bool} {s s' : St} (hi : Inv s) (t : Nat) (ok : Bool)
+    (h : stepG fx s (.lcas t ok) = some s') (hs : s'.stale = false) : Inv s' := by
+  simp only [stepG] at h
   split at h
   case isFalse => simp at h
   split at h
@@ -566,9 +566,9 @@ theorem mem_chainPush {d : Bool} {C : List Nat} {n x : Nat} (h : x ∈ chainPush
     x ∈ C ∨ x = n := by
   cases d <;> simp [chainPush] at h <;> rcases h with h | h <;> simp [h]
 
-theorem step_inv_cas {s s' : St} (hi : Inv s) (t : Nat) (ok : Bool)
-    (h : step s (.cas t ok) = some s') : Inv s' := by
-  simp only [step] at h
+theorem step_inv_cas {fx : Bool} {s s' : St} (hi : Inv s) (t : Nat) (ok : Bool)
+    (h : stepG fx s (.cas t ok) = some s') : Inv s' := by
+  simp only [stepG] at h
   split at h
   case isFalse => simp at h
   have hl := hi.loc t
@@ -724,38 +724,38 @@ theorem lin_same {s s' : St} (h1 : s'.chain = s.chain) (h2 : ∀ x, (s'.nodes x)
   simp only [contents, h1]
   exact List.map_congr_left (fun x _ => h2 x)
 
-theorem step_lin {s s' : St} {e : Ev} (hi : Inv s) (h : step s e = some s') : Lin s s' := by
+theorem step_lin {fx : Bool} {s s' : St} {e : Ev} (hi : Inv s) (h : stepG fx s e = some s') : Lin s s' := by
   cases e with
   | inv t p d v =>
-    simp only [step] at h; split at h <;> first | (simp at h; done) | skip
+    simp only [stepG] at h; split at h <;> first | (simp at h; done) | skip
     simp only [Option.some.injEq] at h; subst h; exact lin_same rfl (fun _ => rfl) rfl rfl
   | done t =>
-    simp only [step] at h; (repeat' split at h) <;> first | (simp at h; done) | skip
+    simp only [stepG] at h; (repeat' split at h) <;> first | (simp at h; done) | skip
     simp only [Option.some.injEq] at h; subst h; exact lin_same rfl (fun _ => rfl) rfl rfl
   | ret t ok v =>
-    simp only [step] at h; (repeat' split at h) <;> first | (simp at h; done) | skip
+    simp only [stepG] at h; (repeat' split at h) <;> first | (simp at h; done) | skip
     simp only [Option.some.injEq] at h; subst h; exact lin_same rfl (fun _ => rfl) rfl rfl
   | free t n =>
-    simp only [step] at h; (repeat' split at h) <;> first | (simp at h; done) | skip
+    simp only [stepG] at h; (repeat' split at h) <;> first | (simp at h; done) | skip
     simp only [Option.some.injEq] at h; subst h; exact lin_same rfl (fun _ => rfl) rfl rfl
   | ld t a =>
-    simp only [step] at h; (repeat' split at h) <;> first | (simp at h; done) | skip
+    simp only [stepG] at h; (repeat' split at h) <;> first | (simp at h; done) | skip
     all_goals (simp only [Option.some.injEq] at h; subst h; exact lin_same rfl (fun _ => rfl) rfl rfl)
   | chk t b =>
-    simp only [step] at h; (repeat' split at h) <;> first | (simp at h; done) | skip
+    simp only [stepG] at h; (repeat' split at h) <;> first | (simp at h; done) | skip
     all_goals (simp only [Option.some.injEq] at h; subst h; exact lin_same rfl (fun _ => rfl) rfl rfl)
   | rd t lk =>
-    simp only [step] at h; (repeat' split at h) <;> first | (simp at h; done) | skip
+    simp only [stepG] at h; (repeat' split at h) <;> first | (simp at h; done) | skip
     all_goals (simp only [Option.some.injEq] at h; subst h; exact lin_same rfl (fun _ => rfl) rfl rfl)
   | link t n g =>
-    simp only [step] at h; (repeat' split at h) <;> first | (simp at h; done) | skip
+    simp only [stepG] at h; (repeat' split at h) <;> first | (simp at h; done) | skip
     simp only [Option.some.injEq] at h; subst h
     refine lin_same rfl (fun x => ?_) rfl rfl
     simp only [upd]; split
     · rename_i hx; subst hx; simp
     · rfl
   | lcas t ok =>
-    simp only [step] at h; (repeat' split at h) <;> first | (simp at h; done) | skip
+    simp only [stepG] at h; (repeat' split at h) <;> first | (simp at h; done) | skip
     · simp only [Option.some.injEq] at h; subst h
       refine lin_same rfl (fun x => ?_) rfl rfl
       simp only [upd]; split
@@ -763,7 +763,7 @@ theorem step_lin {s s' : St} {e : Ev} (hi : Inv s) (h : step s e = some s') : Li
       · rfl
     · simp only [Option.some.injEq] at h; subst h; exact lin_same rfl (fun _ => rfl) rfl rfl
   | alloc t n =>
-    simp only [step] at h
+    simp only [stepG] at h
     split at h
     case isFalse => simp at h
     rename_i hg
@@ -777,7 +777,7 @@ theorem step_lin {s s' : St} {e : Ev} (hi : Inv s) (h : step s e = some s') : Li
       intro he; subst he; have := (hi.glob.mem x hx).2; rw [hg.2.2] at this; simp at this
     simp [upd, this]
   | cas t ok =>
-    simp only [step] at h
+    simp only [stepG] at h
     split at h
     case isFalse => simp at h
     have hl := hi.loc t
@@ -839,14 +839,14 @@ theorem step_lin {s s' : St} {e : Ev} (hi : Inv s) (h : step s e = some s') : Li
       · simp only [Option.some.injEq] at h; subst h; exact lin_same rfl (fun _ => rfl) rfl rfl
 
 /-- `stale` is sticky -/
-theorem stale_mono {s s' : St} {e : Ev} (h : step s e = some s') (hs : s'.stale = false) :
+theorem stale_mono {fx : Bool} {s s' : St} {e : Ev} (h : stepG fx s e = some s') (hs : s'.stale = false) :
     s.stale = false := by
-  cases e <;> simp only [step] at h <;> (repeat' split at h) <;>
+  cases e <;> simp only [stepG] at h <;> (repeat' split at h) <;>
     first
     | (simp at h; done)
     | (simp only [Option.some.injEq] at h; subst h; first | exact hs | (simp at hs; exact hs.1))
 
-theorem step_inv {s s' : St} {e : Ev} (hi : Inv s) (h : step s e = some s') (hs : s'.stale = false) :
+theorem step_inv {fx : Bool} {s s' : St} {e : Ev} (hi : Inv s) (h : stepG fx s e = some s') (hs : s'.stale = false) :
     Inv s' := by
   cases e with
   | inv t p d v => exact step_inv_inv hi t p d v h
@@ -862,17 +862,17 @@ theorem step_inv {s s' : St} {e : Ev} (hi : Inv s) (h : step s e = some s') (hs 
   | done t => exact step_inv_done hi t h
 
 /-- The invariant holds after every accepted log in which no link CAS was stale. -/
-theorem inv_of_accepted {n : Nat} {log : List Ev} {s : St}
-    (h : runLog step (init n) log = some s) (hs : s.stale = false) : Inv s := by
+theorem inv_of_accepted {fx : Bool} {n : Nat} {log : List Ev} {s : St}
+    (h : runLog (stepG fx) (init n) log = some s) (hs : s.stale = false) : Inv s := by
   have key : ∀ (log : List Ev) (s0 s : St), (s0.stale = false → Inv s0) →
-      runLog step s0 log = some s → s.stale = false → Inv s := by
+      runLog (stepG fx) s0 log = some s → s.stale = false → Inv s := by
     intro log
     induction log with
     | nil => intro s0 s h0 h hs; simp at h; subst h; exact h0 hs
     | cons e es ih =>
       intro s0 s h0 h hs
       simp only [runLog] at h
-      cases he : step s0 e with
+      cases he : stepG fx s0 e with
       | none => simp [he] at h
       | some s1 =>
         simp only [he] at h
